@@ -52,6 +52,30 @@ MGet(k) == /\ UNCHANGED <<mem, archs, arch, swap>>
            /\ Finish([op |-> "mget", k |-> k, ret |-> mem[k], exc |-> IF mem[k] = 0 THEN "KeyError" ELSE "none"])
 MUpdate(k, v, k2, v2) == /\ mem' = [mem EXCEPT ![k] = v, ![k2] = v2] /\ UNCHANGED <<archs, arch, swap>>
                          /\ Finish(Ok("mupdate", [k |-> k, v |-> v, k2 |-> k2, v2 |-> v2]))
+MLen == /\ UNCHANGED <<mem, archs, arch, swap>> /\ Finish([op |-> "mlen", ret |-> Cardinality(Dom(mem)), exc |-> "none"])
+MContains(k) == /\ UNCHANGED <<mem, archs, arch, swap>>
+                /\ Finish([op |-> "mcontains", k |-> k, ret |-> IF mem[k] # 0 THEN 1 ELSE 0, exc |-> "none"])
+MKeys == /\ UNCHANGED <<mem, archs, arch, swap>> /\ Finish([op |-> "mkeys", ret |-> EncSeq(SetToSeq(Dom(mem))), exc |-> "none"])
+MSetDefault(k, v) == /\ mem' = (IF mem[k] # 0 THEN mem ELSE [mem EXCEPT ![k] = v]) /\ UNCHANGED <<archs, arch, swap>>
+                     /\ Finish([op |-> "msetdefault", k |-> k, v |-> v, ret |-> IF mem[k] # 0 THEN mem[k] ELSE v, exc |-> "none"])
+MPopItem == /\ UNCHANGED <<archs, arch, swap>>
+            /\ IF Dom(mem) = {} THEN mem' = mem /\ Finish([op |-> "mpopitem", rk |-> 0, ret |-> 0, exc |-> "KeyError"])
+               ELSE \E k \in Dom(mem) : mem' = [mem EXCEPT ![k] = 0]
+                                       /\ Finish([op |-> "mpopitem", rk |-> k, ret |-> mem[k], exc |-> "none"])
+\* cache.popkeys: without a default a shadow dictionary is popped first, so a missing (or repeated) key raises before
+\* anything is removed; with a default every listed key is popped
+MPopKeys(ks) == /\ UNCHANGED <<archs, arch, swap>>
+                /\ IF (\A k \in ToSet(ks) : mem[k] # 0) /\ NoDup(ks)
+                   THEN /\ mem' = [k \in 1..NK |-> IF k \in ToSet(ks) THEN 0 ELSE mem[k]]
+                        /\ Finish([op |-> "mpopkeys", keys |-> ks, ret |-> EncSeq([x \in 1..Len(ks) |-> mem[ks[x]]]), exc |-> "none"])
+                   ELSE mem' = mem /\ Finish([op |-> "mpopkeys", keys |-> ks, ret |-> 0, exc |-> "KeyError"])
+MPopKeysD(ks) == /\ UNCHANGED <<archs, arch, swap>>
+                 /\ mem' = [k \in 1..NK |-> IF k \in ToSet(ks) THEN 0 ELSE mem[k]]
+                 /\ Finish([op |-> "mpopkeysd", keys |-> ks, exc |-> "none",
+                            ret |-> EncSeq([x \in 1..Len(ks) |-> IF mem[ks[x]] # 0 /\ FirstOcc(ks, x) THEN mem[ks[x]] ELSE 77])])
+AClear(x) == /\ archs' = [archs EXCEPT ![x] = EmptyMap(NK)] /\ UNCHANGED <<mem, arch, swap>> /\ Finish(Ok("aclear", [x |-> x]))
+AUpdate(x, k, v, k2, v2) == /\ archs' = [archs EXCEPT ![x] = [@ EXCEPT ![k] = v, ![k2] = v2]] /\ UNCHANGED <<mem, arch, swap>>
+                            /\ Finish(Ok("aupdate", [x |-> x, k |-> k, v |-> v, k2 |-> k2, v2 |-> v2]))
 MClear == /\ mem' = EmptyMap(NK) /\ UNCHANGED <<archs, arch, swap>> /\ Finish(Ok("mclear", No))
 ASet(x, k, v) == /\ archs' = [archs EXCEPT ![x] = [@ EXCEPT ![k] = v]] /\ UNCHANGED <<mem, arch, swap>>
                  /\ Finish(Ok("aset", [x |-> x, k |-> k, v |-> v]))
@@ -100,6 +124,15 @@ Next ==
      \/ "mget" \in OPS /\ \E k \in 1..NK : MGet(k)
      \/ "mupdate" \in OPS /\ \E j \in VALS : MUpdate(1, Val(1, j), 2, Val(2, j))
      \/ "mclear" \in OPS /\ MClear
+     \/ "mlen" \in OPS /\ MLen
+     \/ "mkeys" \in OPS /\ MKeys
+     \/ "mcontains" \in OPS /\ \E k \in 1..NK : MContains(k)
+     \/ "msetdefault" \in OPS /\ \E k \in 1..NK, j \in VALS : MSetDefault(k, Val(k, j))
+     \/ "mpopitem" \in OPS /\ MPopItem
+     \/ "mpopkeys" \in OPS /\ \E ks \in KeySeqs \cup {<<2, 1>>, <<1, 1>>} : MPopKeys(ks)
+     \/ "mpopkeysd" \in OPS /\ \E ks \in KeySeqs \cup {<<2, 1>>, <<1, 1>>} : MPopKeysD(ks)
+     \/ "aclear" \in OPS /\ \E x \in 1..NA : AClear(x)
+     \/ "aupdate" \in OPS /\ \E x \in 1..NA, j \in VALS : AUpdate(x, 1, Val(1, j), 2, Val(2, j))
      \/ "aset" \in OPS /\ \E x \in 1..NA, k \in 1..NK, j \in VALS : ASet(x, k, Val(k, j))
      \/ "adel" \in OPS /\ \E x \in 1..NA, k \in 1..NK : ADel(x, k)
      \/ "load" \in OPS /\ Load
